@@ -12,11 +12,15 @@ LEAN_TARGETS = ["PV.Props.C14"]
 EXTRA_PROPS = ['PV.Props.C04Conv', 'PV.Props.C14Bound']
 # T-C tie (DESIGN 2.3): kernels traced from the current source are proved equal to the model over the reals
 EQUIV = {'PV.Equiv.Geoloc': ['qrotate_eq', 'qrotate_shared_axis_eq', 'geodetic_lat_p1', 'geodetic_lat_p1_c1', 'geodetic_lat_p2', 'geodetic_lat_p2_c2', 'geodLoop_succ', 'subpoint_eq']}
-RULE = ("random vectors/axes of any magnitude (1e-3..1e5), angles in [-4pi, 4pi] incl. 0, +-pi, +-2pi, over every combination "
+RULE = ("random vectors/axes of any magnitude (1e-3..1e5, and log-uniform over 1e-15..1e8, judged relative to the length of "
+        "the vector), angles in [-4pi, 4pi] incl. 0, +-pi, +-2pi, over every combination "
         "of vector shape {(3,), (3,n), (3,m,n)} x axis {shared (3,), (3,1), one per column} x angle {python float, numpy "
         "scalar, 0-d array, one per column}; the one combination the implementation rejects (3-D stack + shared axis + "
-        "per-column angle array) is out of scope; every column is compared with the one-column model at 1e-13; points from "
-        "the surface to 50000 km for geodetic_lat/subpoint; distinct = (shape kind, axis kind, angle kind, values)")
+        "per-column angle array) is out of scope; every array argument additionally in a random memory layout with the "
+        "values unchanged (C, Fortran, transposed / axis-swapped views, strided and reversed slices of NaN-padded buffers, "
+        "0-d views); every column is compared with the one-column model at 1e-13; points from "
+        "the surface to 50000 km for geodetic_lat/subpoint, incl. points 1e-9 .. 10 km from the polar axis and exactly "
+        "on it, both hemispheres; distinct = (shape kind, axis kind, angle kind, values)")
 ASSUMPTIONS = ["the 1 m bound of the geodetic helpers depends on np.allclose's stopping rule (rtol 1e-5): measured",
                "shape handling (reshape/einsum broadcasting) is covered by the correspondence over all shape/kind combinations, "
                "the theorems are about one column"]
@@ -35,8 +39,81 @@ SPECIAL_ANGLES = [0.0, math.pi, -math.pi, 2 * math.pi, -2 * math.pi, math.pi / 2
 
 
 def rvec(r, scale=None):
-    s = scale if scale is not None else 10 ** r.uniform(-3, 5)
+    """A vector of any non-zero magnitude: half of them 1e-3..1e5, half log-uniform over 1e-15..1e8."""
+    if scale is not None:
+        s = scale
+    elif r.random() < 0.5:
+        s = 10 ** r.uniform(-3, 5)
+    else:
+        s = 10 ** r.uniform(-15, 8)
     return np.array([r.gauss(0, 1) for _ in range(3)]) * s
+
+
+# memory layouts: the same values and shape, other strides (the gaps of strided buffers hold NaN)
+LAYOUTS_0D = ["view0d"]
+LAYOUTS_1D = ["strided", "reversed", "strided0", "offset"]
+LAYOUTS_ND = ["F", "T", "swap", "strided", "strided0", "reversed", "rev0", "revall", "offset"]
+
+
+def relayout(x, name):
+    """x (an ndarray) with the same shape and values in the memory layout called `name`; "C" is a fresh C-ordered copy."""
+    x = np.array(x, dtype=float, order="C", copy=True)
+    if name == "C":
+        return x
+    if x.ndim == 0:
+        if name == "view0d":
+            buf = np.full(3, np.nan)
+            buf[1] = x
+            return buf[1:2].reshape(())
+        return x
+    if name == "F":
+        return np.asfortranarray(x)
+    if name == "T":
+        return np.ascontiguousarray(x.T).T
+    if name == "swap":
+        if x.ndim < 2:
+            return x
+        return np.ascontiguousarray(x.swapaxes(-1, -2)).swapaxes(-1, -2)
+    if name == "strided":
+        big = np.full(x.shape[:-1] + (2 * x.shape[-1] + 1,), np.nan)
+        view = big[..., 1::2]
+        view[...] = x
+        return view
+    if name == "strided0":
+        big = np.full((3 * x.shape[0],) + x.shape[1:], np.nan)
+        view = big[::3]
+        view[...] = x
+        return view
+    if name == "reversed":
+        return np.ascontiguousarray(x[..., ::-1])[..., ::-1]
+    if name == "rev0":
+        return np.ascontiguousarray(x[::-1])[::-1]
+    if name == "revall":
+        sl = (slice(None, None, -1),) * x.ndim
+        return np.ascontiguousarray(x[sl])[sl]
+    if name == "offset":
+        big = np.full(tuple(d + 2 for d in x.shape), np.nan)
+        sl = tuple(slice(1, d + 1) for d in x.shape)
+        big[sl] = x
+        return big[sl]
+    raise ValueError("unknown layout " + str(name))
+
+
+def pick_layout(r, x):
+    """A layout name for the argument x ("-" for python floats / numpy scalars, which have none)."""
+    if not isinstance(x, np.ndarray):
+        return "-"
+    if r.random() < 0.4:
+        return "C"
+    return r.choice(LAYOUTS_0D if x.ndim == 0 else LAYOUTS_1D if x.ndim == 1 else LAYOUTS_ND)
+
+
+def apply_layout(x, name):
+    if name == "-" or not isinstance(x, np.ndarray):
+        return x
+    y = relayout(x, name)
+    assert y.shape == x.shape and np.array_equal(y, x)
+    return y
 
 
 def rangle(r):
@@ -51,18 +128,18 @@ def rodrigues(v, k, ang):
 
 
 def make_case(r):
-    """Returns (vector, axis, angle, kinds, per-column list of (v, k, a))."""
-    vkind = r.choice(["(3,)", "(3,n)", "(3,m,n)"])
+    """Returns (vector, axis, angle, kinds, per-column list of (v, k, a), layout names of the three arguments)."""
+    vkind = r.choice(["(3,)", "(3,n)", "(3,m,n)", "(3,m,n)"])
     if vkind == "(3,)":
         shape = ()
     elif vkind == "(3,n)":
         shape = (r.randrange(1, 6),)
     else:
-        shape = (r.randrange(1, 4), r.randrange(1, 5))
+        shape = (r.randrange(1, 5), r.randrange(1, 5))
     ncol = int(np.prod(shape)) if shape else 1
     vec = np.stack([rvec(r) for _ in range(ncol)], axis=1).reshape((3,) + shape)
-    akind = r.choice(["shared(3,)", "shared(3,1)", "per-column"])
-    gkind = r.choice(["pyfloat", "npscalar", "0-d", "per-column"])
+    akind = r.choice(["shared(3,)", "shared(3,1)", "per-column", "per-column"])
+    gkind = r.choice(["pyfloat", "npscalar", "0-d", "per-column", "per-column"])
     if vkind == "(3,)":
         akind = "shared(3,)"
         gkind = r.choice(["pyfloat", "npscalar", "0-d"])
@@ -84,8 +161,25 @@ def make_case(r):
         a = rangle(r)
         angs = np.full(ncol, a)
         angle = {"pyfloat": a, "npscalar": np.float64(a), "0-d": np.array(a)}[gkind]
-    cols = [(vec.reshape(3, -1)[:, j], axes[:, j], float(angs[j])) for j in range(ncol)]
-    return vec, axis, angle, (vkind, akind, gkind), cols
+    cols = [(vec.reshape(3, -1)[:, j].copy(), axes[:, j].copy(), float(angs[j])) for j in range(ncol)]
+    layout = [pick_layout(r, x) for x in (vec, axis, angle)]
+    vec, axis, angle = [apply_layout(x, nm) for x, nm in zip((vec, axis, angle), layout)]
+    return vec, axis, angle, (vkind, akind, gkind), cols, layout
+
+
+def rpoint(r):
+    """A point from the surface to 50000 km: anywhere; or 1e-9 .. 10 km from the polar axis; or exactly on the axis."""
+    from pyorbital import geoloc
+    u = r.random()
+    if u < 0.6:
+        return geo.random_unit(r) * r.choice([r.uniform(6360, 6400), r.uniform(6400, 56400)]), "anywhere"
+    h = r.choice([0.0, r.uniform(0, 1), r.uniform(0, 2000), r.uniform(0, 50000), 50000.0])
+    z = r.choice([1.0, -1.0]) * (geoloc.B + h)       # |z| >= B: on or above the surface whatever the distance from the axis
+    if u < 0.93:
+        d = 10 ** r.uniform(-9, 1)
+        az = r.uniform(-math.pi, math.pi)
+        return np.array([d * math.cos(az), d * math.sin(az), z]), "near-axis"
+    return np.array([0.0, 0.0, z]), "on-axis"
 
 
 def correspond(ctx):
@@ -94,33 +188,37 @@ def correspond(ctx):
     n = ctx.size(1500, 60000)
     lines, exp = [], []
     for _ in range(n):
-        vec, axis, angle, kinds, cols = make_case(ctx.rng)
+        vec, axis, angle, kinds, cols, layout = make_case(ctx.rng)
         ctx.bump("kinds", "/".join(kinds))
+        ctx.bump("layouts", "/".join(layout))
         try:
             out = geoloc.qrotate(vec, axis, angle)
         except Exception as e:  # noqa
-            ctx.disagree("qrotate-raises", {"kinds": kinds}, type(e).__name__ + ": " + str(e)[:80], "a rotated array")
+            ctx.disagree("qrotate-raises", {"kinds": kinds, "layout": layout}, type(e).__name__ + ": " + str(e)[:80],
+                         "a rotated array")
             continue
         if out.shape != vec.shape:
-            ctx.disagree("qrotate-shape", {"kinds": kinds}, list(out.shape), list(vec.shape))
+            ctx.disagree("qrotate-shape", {"kinds": kinds, "layout": layout}, list(out.shape), list(vec.shape))
             continue
         o2 = out.reshape(3, -1)
         for j, (v, k, a) in enumerate(cols):
             lines.append("qrot " + " ".join(lib.f2h(x) for x in list(v) + list(k) + [a]))
-            exp.append((kinds, v, k, a, o2[:, j]))
+            exp.append((kinds, v, k, a, o2[:, j], layout))
     outs = drv.run_parallel(lines)
-    for (kinds, v, k, a, got), o in zip(exp, outs):
+    for (kinds, v, k, a, got, layout), o in zip(exp, outs):
         ctx.count("eval_corr_qrotate")
         ctx.distinct((kinds, tuple(v), a))
         m = np.array([lib.h2f(x) for x in o.split()])
         scale = float(np.linalg.norm(v))
         if not np.all(np.abs(m - got) <= 1e-12 * scale + 1e-300):
-            ctx.disagree("qrotate", {"kinds": kinds, "v": list(v), "axis": list(k), "angle": a}, list(got), list(m))
+            ctx.disagree("qrotate", {"kinds": kinds, "layout": layout, "v": list(v), "axis": list(k), "angle": a},
+                         list(got), list(m))
     ctx.sample({"kinds": exp[0][0], "v": list(exp[0][1]), "axis": list(exp[0][2]), "angle": exp[0][3]})
     # geodetic helpers
     lines, exp = [], []
     for _ in range(ctx.size(800, 30000)):
-        p = geo.random_unit(ctx.rng) * ctx.rng.choice([ctx.rng.uniform(6360, 6400), ctx.rng.uniform(6400, 56400)])
+        p, region = rpoint(ctx.rng)
+        ctx.bump("corr_point_region", region)
         gl = float(geoloc.geodetic_lat(p))
         sp = geoloc.subpoint(p)
         lines.append("geodlat " + " ".join(lib.f2h(x) for x in list(p) + [geoloc.A, geoloc.B]))
@@ -147,9 +245,10 @@ def oracle(ctx):
     from pyorbital import geoloc
     n = ctx.size(1500, 60000)
     for _ in range(n):
-        vec, axis, angle, kinds, cols = make_case(ctx.rng)
+        vec, axis, angle, kinds, cols, layout = make_case(ctx.rng)
         ctx.count("eval_oracle")
-        case = {"kinds": kinds, "vector": vec.tolist(), "axis": np.asarray(axis).tolist(), "angle": np.asarray(angle).tolist()}
+        case = {"kinds": kinds, "layout": layout, "vector": vec.tolist(), "axis": np.asarray(axis).tolist(),
+                "angle": np.asarray(angle).tolist()}
         before = [np.array(x, copy=True) for x in (vec, axis, angle)]
         try:
             out = geoloc.qrotate(vec, axis, angle)
@@ -194,7 +293,8 @@ def oracle(ctx):
     worst = 0.0
     for _ in range(ctx.size(1500, 60000)):
         ctx.count("eval_oracle_geodetic")
-        p = geo.random_unit(ctx.rng) * ctx.rng.choice([ctx.rng.uniform(6360, 6400), ctx.rng.uniform(6400, 56400)])
+        p, region = rpoint(ctx.rng)
+        ctx.bump("oracle_point_region", region)
         sp = geoloc.subpoint(p)
         a, b = geoloc.A, geoloc.B
         q = sp[0] ** 2 / a ** 2 + sp[1] ** 2 / a ** 2 + sp[2] ** 2 / b ** 2
@@ -215,8 +315,8 @@ def match_known(entry, v):
 
 
 def replay(ctx, case):
-    """Re-evaluate the recorded rotation (Rodrigues by minus the angle per column, shape, arguments untouched, repeatable) or
-    the recorded point of the geodetic helpers."""
+    """Re-evaluate the recorded rotation (Rodrigues by minus the angle per column, shape, arguments untouched, repeatable;
+    the arguments rebuilt with the recorded kinds and memory layouts) or the recorded point of the geodetic helpers."""
     from pyorbital import geoloc
     inp = case.get("input", case)
     if "point" in inp:
@@ -247,6 +347,13 @@ def replay(ctx, case):
     vec = np.array(inp["vector"], dtype=float)
     axis = np.array(inp["axis"], dtype=float)
     angle = np.array(inp["angle"], dtype=float) if isinstance(inp["angle"], list) else float(inp["angle"])
+    gkind = (list(inp.get("kinds") or []) + [None] * 3)[2]
+    if not isinstance(angle, np.ndarray) and gkind in ("npscalar", "0-d"):
+        angle = np.float64(angle) if gkind == "npscalar" else np.array(angle)
+    # the recorded memory layout of each argument (values and shapes are those recorded)
+    layout = list(inp.get("layout") or ["C", "C", "C"])
+    vec, axis, angle = [apply_layout(x, nm) for x, nm in zip((vec, axis, angle), layout)]
+    print("kinds", inp.get("kinds"), "layout", layout)
     before = [np.array(x, copy=True) for x in (vec, axis, angle)]
     try:
         out = geoloc.qrotate(vec, axis, angle)
